@@ -128,6 +128,24 @@ def handle (line : String) : String :=
         if strict && !(checkList (mayAccess c) sh o) then specFail model "list-shows-inaccessible-repository"
         else answer model
     | _, _, _, _, _, _ => badCase "fields"
+  | ["trsearch", strict, c, mode, early, repos, docsChild, docsRest] =>
+    match bool? strict, parseCtx c, parseMode mode, bool? early, parseRepos repos, parseDocs docsChild, parseDocs docsRest with
+    | some strict, some c, some mode, some early, some repos, some dc, some dr =>
+      let shC : Shard := ⟨repos, dc⟩
+      let shR : Shard := ⟨repos, dr⟩
+      if !wfShard shC || !wfShard shR then badCase "document of unknown repository" else
+      let acc := hasAccess strict c
+      let o := observeSearch (typeRepoSearch acc shC shR mode early)
+      let model := "files=" ++ showList (fun f => s!"{tok f.1}:{f.2.1}:{tok f.2.2}") o.files
+      match (fields impl) with
+      | [a] =>
+        match parseObsSearch (a ++ " urls=- frags=-") with
+        | none => badCase "impl output"
+        | some io =>
+          if strict && !(checkSearch (mayAccess c) shR io) then specFail model "typerepo-search-shows-inaccessible-repository"
+          else answer model
+      | _ => badCase "impl output"
+    | _, _, _, _, _, _, _ => badCase "fields"
   | _ => badCase "op"
 
 def main : IO Unit := runLines handle
